@@ -14,12 +14,12 @@ import c11
 PROPERTY = 'C06'
 MANIFEST = {
  'level_text': 'Lean 4 theorems, kernel-checked, about a model of the funnels every outgoing message passes: the IrcMsg keyword constructor with its isValidArgument assertion, IrcMsg.__str__, safeArgument, callbacks._makeReply (all flag/configuration combinations), ircmsgs.privmsg/notice/action, the label tag and Irc._truncateMsg: a message built by the keyword constructor whose prefix, command and tag keys are clean serialises to exactly one line (one CR LF, at the end, no NUL); _makeReply yields such a message or the constructor asserts, for every reply text (any Unicode, any control characters), every flag combination and every configuration; after _truncateMsg the non-tag part has at most 512 UTF-8 bytes (the cut never splits a character) and the line is still well formed. MAX_LINE_SIZE, the characters isValidArgument rejects, how _truncateMsg measures/cuts and the inventory of IrcMsg constructions that bypass the assertion (string branch, msg=) are re-extracted from /repo on every run and enter through table lemmas; model and code are tied by differential runs on _makeReply, on the constructors/truncation and by a sweep of every command of the loaded plugins on a live bot.',
- 'level_note': 'Trusted: Lean kernel; harness/extractors/out.py; the correspondence harness; Python repr() is a parameter with the contract "its output contains no CR, LF, NUL" (checked on every use). Modelled and proved: the two funnels every message passes (constructor assertion, takeMsg truncation) and the reply payload construction. Observation point of the live levels: the bytes the real SocketDriver writes to a fake socket after the real Irc.takeMsg (capability sets none / labeled-response / echo-message / message-tags). Exercised, not proved: the bodies of the ~60 plugins (sweep C), the Filter/BadWords outFilter rewriters (level E, each installed through the real command); the sites that construct an IrcMsg through msg= or from a raw string are an extracted inventory with an allow-list obligation (outFilter rewriters of BadWords/Filter/Google/ShrinkUrl, owner-only Debug.sendquote/Owner.ircquote, two copies, two incoming paths). Tags are outside the 512-byte bound (as in the property).',
+ 'level_note': 'Trusted: Lean kernel; harness/extractors/out.py; the correspondence harness; Python repr() is a parameter with the contract "its output contains no CR, LF, NUL" (checked on every use). Modelled and proved: the two funnels every message passes (constructor assertion, takeMsg truncation) and the reply payload construction. Observation point of the live levels: the bytes the real SocketDriver writes to a fake socket after the real Irc.takeMsg (capability sets none / labeled-response / echo-message / message-tags). Exercised, not proved: the bodies of the ~60 plugins (sweep C), the Filter/BadWords outFilter rewriters (level E, each installed through the real command); the msg= form asserts like the plain form since fix 060efef (theorem copy_line), so the only unchecked constructions are from raw strings: an extracted inventory with an allow-list obligation (owner-only Debug.sendquote/Owner.ircquote, the incoming path). Tags are outside the 512-byte bound (as in the property).',
  'technique': 'Lean 4 proof (list induction, case analysis over the reply flags) + table extraction + differential correspondence + live command sweep',
  'design_ref': 'DESIGN.md §6 C06',
 }
 THEOREMS = ['C06.out_tables_ok', 'C06.ctor_line', 'C06.reply_line', 'C06.reply_never_asserts', 'C06.truncate_bound_bytes', 'C06.truncate_keeps_line',
-            'C06.take_line', 'C06.wire_line', 'C06.cut_is_prefix', 'C06.utf8Len_eq', 'C06.copy_without_overrides', 'C06.copy_bypasses_assertion']
+            'C06.take_line', 'C06.wire_line', 'C06.cut_is_prefix', 'C06.utf8Len_eq', 'C06.copy_without_overrides', 'C06.copy_line', 'C06.copy_refuses_smuggling']
 TRUSTED = ['Lean 4.33.0 kernel; axioms ⊆ {propext, Classical.choice, Quot.sound}',
            'harness/extractors/out.py (MAX_LINE_SIZE, isValidArgument characters, _truncateMsg shape, raw-construction inventory → Gen/Out.lean)',
            'harness/c06.py generators + canonicalisation; harness/plugins/VtOut',
@@ -69,7 +69,8 @@ class Rig6(c11.Rig):
         orig = b.irc.takeMsg
         def take():
             m = orig()
-            if m is not None: self.taken.append(m)
+            # (Irc.takeMsg recurses through this wrapper after an outFilter dropped a message: count once)
+            if m is not None and not (self.taken and self.taken[-1] is m): self.taken.append(m)
             return m
         b.irc.takeMsg = take
         for _ in range(3): self.drivers.run()
@@ -229,10 +230,17 @@ def b_cases(b, rig, r, n):
             # the msg= branch: no assertion
             base = im.IrcMsg(prefix='', command='PRIVMSG', args=('#c', 'ok'))
             a2 = [r.choice(['#c', 'n']), gen_text(r, 8)]
-            m2 = im.IrcMsg(msg=base, args=tuple(a2))
-            out2, data2, _ = through_driver(rig, m2, ())
-            if out2 is None: out2 = 'line\t%s' % data2.hex()
-            cases.append(Case({'B': 'copy', 'args': a2}, impl=out2, kind='B-copy', tags=('msg=-branch',) + (('not-wf',) if not wire_check(data2)[0] else ())))
+            try:
+                m2 = im.IrcMsg(msg=base, args=tuple(a2))
+                out2, data2, _ = through_driver(rig, m2, ())
+                if out2 is None: out2 = 'line\t%s' % data2.hex()
+            except AssertionError:
+                out2, data2 = 'assert', b''
+            ok2, msg2 = wire_check(data2)
+            if ok2 and data2.count(b'\r\n') > 1:
+                ok2 = False; msg2 = 'one message rebuilt through msg= went out as %d lines: %r' % (data2.count(b'\r\n'), data2[:120])
+            cases.append(Case({'B': 'copy', 'args': a2}, impl=out2, oracle_ok=ok2, oracle_msg=msg2, kind='B-copy',
+                              tags=('msg=-branch',) + (('assert',) if out2 == 'assert' else ())))
             lines.append('\t'.join(['copy', wire.enc(''), wire.enc('PRIVMSG'), wire.enc_list(['#c', 'ok']), '-', wire.enc(''), wire.enc(''), wire.enc_list(a2)]))
     return cases, lines
 
@@ -299,6 +307,11 @@ def message_cases(text, cfg, private, caps, data, taken, cases, lines, kind='C-s
         want = b''.join(enc_replace(str(m)) for m in taken)
         if data != want:
             ok = False; msg = 'the driver wrote %r… for messages whose encoding is %r…' % (data[:80], want[:80])
+    if ok:
+        for m in taken:
+            if not py_wf(str(m)):
+                ok = False; msg = 'one message went out as %d lines (or with CR/LF/NUL inside): %r' % (str(m).count('\n'), str(m)[:200])
+                break
     if not ok:
         msg = '%r (capabilities %r, configuration %r) — %s' % (text[:160], caps, cfg, msg)
     cases.append(Case({'C': True, 'text': text, 'cfg': cfg, 'private': private, 'caps': list(caps)}, impl=None, oracle_ok=ok, oracle_msg=msg,
@@ -394,6 +407,42 @@ def e_cases(b, rig, r, per_filter):
                 message_cases('[badwords] ' + text, {}, False, (), res[0], res[1], cases, lines, kind='E-outfilter')
         finally:
             b.conf.supybot.plugins.BadWords.words.setValue(set())
+    # ShrinkUrl / Google: outFilters fed by what a web service answers (the network is replaced by a hostile answer)
+    su = b.irc.getCallback('ShrinkUrl')
+    if su is None:
+        try:
+            su = bot.load_plugin(b, 'ShrinkUrl')
+        except Exception:
+            su = None
+    if su is not None:
+        utils = rig.utils
+        saved = utils.web.getUrl
+        conf = b.conf
+        try:
+            conf.supybot.plugins.ShrinkUrl.outFilter.setValue(True)
+            conf.supybot.plugins.ShrinkUrl.minimumLength.setValue(10)
+            for answer in [b'http://tinyurl.com/abc', b'http://tinyurl.com/abc\r\nQUIT :smuggled', b'http://t/\n', b'http://t/\x00x', 'http://t/é'.encode() * 200]:
+                utils.web.getUrl = lambda url, *a, **k: answer
+                try:
+                    su.db.db.clear() if hasattr(su.db, 'db') and hasattr(su.db.db, 'clear') else None
+                except Exception:
+                    pass
+                text = 'echo see http://example.org/a/very/long/url/%d/that/needs/shrinking' % r.randrange(10 ** 9)
+                res = invoke(b, rig, text, False)
+                if res is None: continue
+                time.sleep(0.05)
+                d2, t2 = rig.flush()
+                n += 1
+                message_cases('[shrinkurl answers %r] %s' % (answer[:40], text), {}, False, (), res[0] + d2, res[1] + t2, cases, lines, kind='E-outfilter')
+        finally:
+            utils.web.getUrl = saved
+            conf.supybot.plugins.ShrinkUrl.outFilter.setValue(False)
+    # Misc.more / Utilities.let: plain copies
+    for text in ['echo ' + 'wörd ' * 400, 'more', 'more', 'let x = "a\\nb" in echo $x', 'let x = ' + 'é' * 300 + ' in echo $x $x']:
+        res = invoke(b, rig, text, False)
+        if res is None: continue
+        n += 1
+        message_cases('[copy sites] ' + text[:80], {}, False, (), res[0], res[1], cases, lines, kind='E-outfilter')
     return cases, lines, {'outfilter_invocations': n, 'filter_commands': len(filt._filterCommands)}
 
 # ---------------------------------------------------------------- run
